@@ -127,7 +127,9 @@ def spec(rng, ndim=None, dims=None, sizes=None, kinds=None, orders=None, dtype='
             "values": values(rng, tuple(sizes), dtype, nan),
             # history: 30 % of the arrays have had their axes' ordering queried (as an earlier align / a + b would do),
             # so that lookups run with the monotonicity cache populated
-            "prime": rng.random() < 0.3}
+            "prime": rng.random() < 0.3,
+            # memory layout is not observable through the library's API: 15 % of the N-d arrays hold Fortran-ordered values
+            "forder": n >= 2 and rng.random() < 0.15}
 
 
 def build(sp, meta=True, as_list=False):
@@ -142,8 +144,10 @@ def build(sp, meta=True, as_list=False):
             if meta:
                 ax._attrs.update(monitors.axis_sentinel(d))
             axes.append(ax)
-        v = sp["values"]
-        a = da.DimArray(np.array(v, copy=True), axes=axes)
+        v = np.array(sp["values"], copy=True)
+        if sp.get("forder") and v.ndim >= 2:
+            v = np.asfortranarray(v)
+        a = da.DimArray(v, axes=axes)
     except Exception as e:
         # a well-formed (values, Axis objects) specification that the constructor refuses is a C05 matter
         # (the host workload then reports a harness error, i.e. is inconclusive)
